@@ -86,10 +86,11 @@ theorem critical_gate (O : Oracle) (file : Bytes) (res : ReadResult) (hok : (rea
     cases hp : prescan O { rest := file } with
     | err e r => simp [hp] at hok
     | panic r => simp [hp] at hok
-    | ok oid r1 =>
+    | ok p r1 =>
+      obtain ⟨oid, frame⟩ := p
       simp only [hp] at hok
-      have h2 := holds_readBody_gate O oid { rest := file } (allocOK_init file)
-      cases hb : readBody O oid { rest := file } with
+      have h2 := holds_readBody_gate O oid frame { rest := file } (allocOK_init file)
+      cases hb : readBody O oid frame { rest := file } with
       | ok res' r2 =>
         simp only [hb] at hok h2
         cases hok
@@ -124,7 +125,7 @@ theorem exDoc_wf : WF exOracle exDoc [1, 2, 840, 113549, 1, 1, 11] .sha256
       rcases he with rfl | rfl <;> decide
     extsLen := by intro x h; cases h; decide
     outerLen := by decide, sigLen := by decide, total := by decide
-    algOk := rfl, hashOk := by decide, issuerOk := rfl, thisOk := rfl
+    algSame := rfl, algOk := rfl, hashOk := by decide, issuerOk := rfl, thisOk := rfl
     nextOk := by intro t _; rfl
     entriesOk := by intro l _ e _; rfl
     extsOk := ⟨_, rfl, rfl, by decide, by decide⟩ }
